@@ -127,6 +127,9 @@ Example C19_example_stored :
   conv (fun _ => None) (fun _ => None) 166 50 (SBigFloat (BF true 3 62 64)) TBigInt
     = Stored (StBigInt (- 13835058055282163712)) /\
   conv (fun _ => None) (fun _ => None) 166 50 (SNeg 5) (TFloat F32) = Stored (StFloat (FFin true 5 0)) /\
+  conv (fun _ => None) (fun _ => None) 166 50 (SNeg 0) (TFloat F64) = Stored (StFloat (FFin true 0 0)) /\
+  conv (fun _ => None) (fun _ => None) 166 50 (SNeg 0) TBigFloat = Stored (StBigFloat (BF true 0 (-1074) 53)) /\
+  conv (fun _ => None) (fun _ => None) 166 50 (SNeg 0) (TUint I8) = Stored (StUint 0) /\
   conv (fun _ => None) (fun _ => None) 166 50 (SNeg p63) (TInt I64) = Stored (StInt (- p63)) /\
   conv (fun _ => None) (fun _ => None) 166 50 (SNeg (p63 + 5)) TBigInt = Stored (StBigInt (- (p63 + 5))) /\
   conv (fun _ => None) (fun _ => None) 166 50 (SPos (p63 + 1)) TBigInt = Stored (StBigInt (p63 + 1)) /\
